@@ -51,7 +51,7 @@ func TestVerifC13_ed25519(t *testing.T) {
 	defer r.Finish()
 	r.Rule("edwards25519 internals: points PT = {O, +-kB, [(l+-1)/2]B, +-[s]B} from the reference's affine coordinates (and through FromBytes of its RFC 8032 encoding); " +
 		"add (projective table entry) and mixAdd (affine table entry) on PT x PT, double/neg on PT, fixedMult on SC = curvealpha.Scalars(l, 256) as 32-byte little-endian, " +
-		"doubleMult(Q, m, n) = mB + nQ on SCc x SCc x PTc plus SC x {1, l-1} x {B} and {1, l-1} x SC x {B} (thorough: SC x SC x PT); results compared as affine coordinates and RFC 8032 encodings; distinct = distinct (operation, operand names)")
+		"doubleMult(Q, m, n) = mB + nQ on SCc x SCc x PTc plus SC x {1, l-1} x {B} and {1, l-1} x SC x {B} (thorough: SC x SC x PT); results compared as affine coordinates and RFC 8032 encodings; before that isEqual is queried directly on byte-identical copies of each freshly computed result (against the expected point, SetIdentity, a computed identity T+(-T), the same point by another route, a different point), including the chain ((P+Q)-Q)-P; distinct = distinct (operation, operand names)")
 	ref := ecurve.Edwards25519()
 	N := ref.N
 	if !bytes.Equal(fpx.ToLE(N, 32), order[:32]) || c13Int(&paramD).Cmp(ref.D.A) != 0 {
@@ -69,7 +69,47 @@ func TestVerifC13_ed25519(t *testing.T) {
 	bad := func(op, class, id, what string, payload interface{}) {
 		r.Violation("C13|ed25519."+op+"|"+curvealpha.CoarseKey(class), id, what, payload)
 	}
+	// preds queries the only predicate of the internal group (isEqual) DIRECTLY on
+	// byte-identical copies of a freshly computed value, before anything normalises it.
+	Tp := ref.BaseMult(big.NewInt(0x51ed27))
+	preds := func(op, class, id string, got *pointR1, want ecurve.Point, payload interface{}) {
+		fresh := func() *pointR1 { f := *got; return &f }
+		isID := ref.IsIdentity(want)
+		kind := "non-identity"
+		if isID {
+			kind = "identity"
+			r.Count("identity_results_queried", 1)
+		} else {
+			r.Count("non_identity_results_queried", 1)
+		}
+		fail := func(pred string, v, exp bool) {
+			if v != exp {
+				bad(op, "predicate:"+pred+"|fresh-result|"+kind+"|"+class, id,
+					fmt.Sprintf("%s: %s = %v on the freshly computed result (raw coordinates %v), the reference says %v (result should be %v)", id, pred, v, *got, exp, want), payload)
+			}
+		}
+		fail("isEqual(expected)", fresh().isEqual(c13R1(want)), true)
+		fail("expected.isEqual(result)", c13R1(want).isEqual(fresh()), true)
+		var I pointR1
+		I.SetIdentity()
+		fail("isEqual(SetIdentity)", fresh().isEqual(&I), isID)
+		fail("SetIdentity.isEqual(result)", I.isEqual(fresh()), isID)
+		CI := c13R1(Tp) // an identity produced by arithmetic: T + (-T), projective
+		var nT pointR2
+		nT.fromR1(c13R1(ref.Neg(Tp)))
+		CI.add(&nT)
+		fail("isEqual(T+(-T))", fresh().isEqual(CI), isID)
+		fail("(T+(-T)).isEqual(result)", CI.isEqual(fresh()), isID)
+		alt := c13R1(ref.Sub(want, Tp)) // the same point by another route
+		var t2 pointR2
+		t2.fromR1(c13R1(Tp))
+		alt.add(&t2)
+		fail("isEqual(other-route)", fresh().isEqual(alt), true)
+		fail("isEqual(different-point)", fresh().isEqual(c13R1(ref.Add(want, ref.G))), false)
+		fail("isEqual(-expected)", fresh().isEqual(c13R1(ref.Neg(want))), isID)
+	}
 	check := func(op, class, id string, got *pointR1, want ecurve.Point, payload interface{}) {
+		preds(op, class, id, got, want, payload)
 		g := *got
 		if fp.IsZero(&g.z) {
 			bad(op, "wrong-result|"+class, id, id+": z = 0", payload)
@@ -144,8 +184,17 @@ func TestVerifC13_ed25519(t *testing.T) {
 			B := *P
 			if try("add", id+"/back", func() { B.add(&nq2) }) {
 				check("add", "projective-accumulator|P="+a.Name+"|Q="+b.Name, id+"/back", &B, refPts[i], nil)
+				// chain to the identity through non-normalised operands: ((P+Q)-Q)-P
+				np := c13R1(refPts[i])
+				np.neg()
+				var np2 pointR2
+				np2.fromR1(np)
+				Z := B
+				if try("add", id+"/chain", func() { Z.add(&np2) }) {
+					check("add", "chain-to-identity|P="+a.Name+"|Q="+b.Name, id+"/chain", &Z, ref.Identity(), nil)
+				}
 			}
-			r.Eval(3)
+			r.Eval(4)
 			r.Transition(3)
 			r.Distinct("add", a.Name, b.Name)
 			switch {
@@ -278,4 +327,6 @@ func TestVerifC13_ed25519(t *testing.T) {
 	r.RequireCounter("dmult_Q_eq_B_and_m_eq_n", 5)
 	r.RequireCounter("dmult_m_eq_neg_n", 3)
 	r.RequireCounter("dmult_Q_identity", 10)
+	r.RequireCounter("identity_results_queried", 300)
+	r.RequireCounter("non_identity_results_queried", 1000)
 }
